@@ -212,7 +212,8 @@ def run_op(case, num):
             hi = a.U[i + a.p + 1]
             prev = lo + (hi - lo) * t
             nodes.append(prev)
-        nodes.append(prev + (a.U[-1] - prev) / 2)
+        if t != F(1, 2):  # t == 1/2: square system (interpolation); otherwise one extra node (least squares)
+            nodes.append(prev + (a.U[-1] - prev) / 2)
         ln = [K(z) for z in nodes]
         data = [A(u) for u in ln]
         T = lib.Curve([K(u) for u in case["A"]["U"]])
